@@ -54,7 +54,8 @@ Inductive behaviour :=
 | BAnswersLate              (* the answer is put at the moment the parent, having given up, kills the worker *)
 | BSlow (d : nat)           (* an Equal replay whose answer is put d seconds after the worker took the task *)
 | BDrops                    (* an Equal replay whose answer is lost in transit (unpicklable result: mp.Queue's
-                               feeder thread drops it); the worker goes on *)
+                               feeder thread drops it); the worker goes on polling and is killed, idle, at the
+                               timeout - leaving the task queue's read lock held *)
 | BDiesBefore.              (* the worker dies before taking this task from the queue (once); the replay itself
                                is an Equal one *)
 
@@ -142,7 +143,12 @@ Inductive event :=
 | ETerminated (pid : nat) | ELate (pid : nat).
 
 (** the two queues and the event log (what a worker turn can change besides the worker itself) *)
-Record shared := Shared { tasks : list task; results : list result; events : list event (* newest first *) }.
+Record shared := Shared {
+  tasks : list task; results : list result; events : list event (* newest first *);
+  rlock : bool      (* the read lock of the task queue was held by a worker that the parent killed while it was idle,
+                       i.e. blocked in [get(True, 0.05)] (:321) under that lock: nobody can take a task from this
+                       queue any more (observed on real processes; multiprocessing.Queue.get holds _rlock while polling) *)
+}.
 
 Record st := St {
   sh : shared;
@@ -154,7 +160,7 @@ Record st := St {
   polls : list nat         (* parent polls per queued task, newest first *)
 }.
 
-Definition init : st := St (Shared [] [] []) None [] 0 false 0 [].
+Definition init : st := St (Shared [] [] [] false) None [] 0 false 0 [].
 
 Definition alive (w : worker) : bool := match w_stat w with WDead _ => false | _ => true end.
 
@@ -181,15 +187,15 @@ Definition took (w : worker) (t : task) (s : wstat) : worker := Worker s (w_serv
 Fixpoint serve (pid clk : nat) (w : worker) (ts : list task) (rs : list result) (ev : list event)
   : worker * shared :=
   match ts with
-  | [] => (w, Shared [] rs ev)                                                  (* :329 Empty *)
+  | [] => (w, Shared [] rs ev false)                                                  (* :329 Empty *)
   | t :: ts' =>
       match wact_of t with
       | ADieBefore => (Worker (WDead DBefore) (w_served w),
-                       Shared (Task (t_id t) (t_beh t) true :: ts') rs (EBefore pid :: ev))
-      | AExit => (took w t (WDead DExit), Shared ts' rs (EExit pid :: ev))       (* SystemExit passes :325, :368 *)
-      | AHang => (took w t (WHung None), Shared ts' rs ev)
-      | ALate r => (took w t (WHung (Some r)), Shared ts' rs ev)
-      | ABusy d r => (took w t (WBusy (clk + d) r), Shared ts' rs ev)
+                       Shared (Task (t_id t) (t_beh t) true :: ts') rs (EBefore pid :: ev) false)
+      | AExit => (took w t (WDead DExit), Shared ts' rs (EExit pid :: ev) false)       (* SystemExit passes :325, :368 *)
+      | AHang => (took w t (WHung None), Shared ts' rs ev false)
+      | ALate r => (took w t (WHung (Some r)), Shared ts' rs ev false)
+      | ABusy d r => (took w t (WBusy (clk + d) r), Shared ts' rs ev false)
       | ADrop => serve pid clk (took w t WIdle) ts' rs ev
       | AAnswer r => serve pid clk (took w t WIdle) ts' (rs ++ [r]) ev           (* :324 *)
       end
@@ -197,14 +203,16 @@ Fixpoint serve (pid clk : nat) (w : worker) (ts : list task) (rs : list result) 
 
 (** an idle worker at the top of its loop (:319) *)
 Definition idle_turn (pid clk : nat) (tm : bool) (w : worker) (q : shared) : worker * shared :=
-  if tm then (Worker (WDead DTerminated) (w_served w), Shared (tasks q) (results q) (ETerminated pid :: events q))
+  if tm then (Worker (WDead DTerminated) (w_served w),
+              Shared (tasks q) (results q) (ETerminated pid :: events q) (rlock q))
+  else if rlock q then (Worker WIdle (w_served w), q)            (* :321 can never acquire the lock: Empty for ever *)
   else serve pid clk (Worker WIdle (w_served w)) (tasks q) (results q) (events q).
 
 Definition wturn (pid clk : nat) (tm : bool) (w : worker) (q : shared) : worker * shared :=
   match w_stat w with
   | WIdle => idle_turn pid clk tm w q
   | WBusy ready r =>
-      if ready <=? clk then idle_turn pid clk tm w (Shared (tasks q) (results q ++ [r]) (events q))
+      if ready <=? clk then idle_turn pid clk tm w (Shared (tasks q) (results q ++ [r]) (events q) (rlock q))
       else (w, q)
   | _ => (w, q)
   end.
@@ -232,7 +240,7 @@ Definition bump (ps : list nat) : list nat := match ps with [] => [] | p :: ps' 
 Definition pop_result (s : st) : option (result * st) :=
   match results (sh s) with
   | [] => None
-  | r :: rs => Some (r, St (Shared (tasks (sh s)) rs (events (sh s))) (cur s) (old s) (age s) (term s) (clock s) (polls s))
+  | r :: rs => Some (r, St (Shared (tasks (sh s)) rs (events (sh s)) (rlock (sh s))) (cur s) (old s) (age s) (term s) (clock s) (polls s))
   end.
 
 Definition tick (s : st) : st := St (sh s) (cur s) (old s) (age s) (term s) (S (clock s)) (polls s).
@@ -287,10 +295,13 @@ Definition handle_timeout (s : st) : st :=
       match w_stat w with
       | WDead _ => forget s
       | WHung (Some r) =>    (* the late answer lands just before the kill *)
-          forget (St (Shared (tasks q) (results q ++ [r]) (EKilled pid :: ELate pid :: events q))
+          forget (St (Shared (tasks q) (results q ++ [r]) (EKilled pid :: ELate pid :: events q) (rlock q))
+                     (Some (Worker (WDead DKilled) (w_served w))) (old s) (age s) (term s) (clock s) (polls s))
+      | WIdle =>             (* killed while polling the task queue: its read lock stays held *)
+          forget (St (Shared (tasks q) (results q) (EKilled pid :: events q) true)
                      (Some (Worker (WDead DKilled) (w_served w))) (old s) (age s) (term s) (clock s) (polls s))
       | _ =>
-          forget (St (Shared (tasks q) (results q) (EKilled pid :: events q))
+          forget (St (Shared (tasks q) (results q) (EKilled pid :: events q) (rlock q))
                      (Some (Worker (WDead DKilled) (w_served w))) (old s) (age s) (term s) (clock s) (polls s))
       end
   end.
@@ -329,8 +340,8 @@ Definition create_or_recycle (c : cfg) (s : st) : prepared :=
                 | Some _ => s1
                 | None =>                                                     (* :300-301, :310-313 *)
                     let q := sh s1 in
-                    let q' := if fresh_queues c then Shared [] [] (events q) else q in
-                    St (Shared (tasks q') (results q') (EStart (length (old s1)) :: events q'))
+                    let q' := if fresh_queues c then Shared [] [] (events q) false else q in
+                    St (Shared (tasks q') (results q') (EStart (length (old s1)) :: events q') (rlock q'))
                        (Some (Worker WIdle [])) (old s1) 0 (term s1) (clock s1) (polls s1)
                 end in
       Ready (St (sh s2) (cur s2) (old s2) (S (age s2)) (term s2) (clock s2) (polls s2))     (* :304 *)
@@ -338,7 +349,7 @@ Definition create_or_recycle (c : cfg) (s : st) : prepared :=
 
 Definition put_task (x : rid * behaviour) (s : st) : st :=      (* :241 *)
   let q := sh s in
-  St (Shared (tasks q ++ [Task (fst x) (snd x) false]) (results q) (events q))
+  St (Shared (tasks q ++ [Task (fst x) (snd x) false]) (results q) (events q) (rlock q))
      (cur s) (old s) (age s) (term s) (clock s) (0 :: polls s).
 
 Inductive iterated := IYield (c : cmp) (s : st) | IBlocked (s : st) | IFuel.
